@@ -273,7 +273,7 @@ def trace_origin(
                 if node.module in constants.PYTHON_311_STDLIB:
                     # Logic copied from _get_exports_list() in os.py from python3.12.0b2
                     try:
-                        module = __import__(node.module)
+                        module = importlib.import_module(node.module)  # __import__('a.b') would return a
                     except ImportError:  # Not all of the stdlib exists on all platforms and versions
                         continue
                     exports = getattr(
@@ -293,7 +293,7 @@ def trace_origin(
                 # only builtins are imported this way.
                 if origin in {"frozen", "built-in"}:
                     try:
-                        module = __import__(node.module)
+                        module = importlib.import_module(node.module)  # __import__('a.b') would return a
                     except ImportError:
                         continue
                     exports = getattr(
